@@ -138,6 +138,7 @@ let quirk_keys = [
   "inject-defaults-enum-ref", (fun q -> { q with q_inject_kind = false });
   "inject-defaults-string-reparsed", (fun q -> { q with q_inject_reparse = false });
   "variable-default-null-list-wrapped", (fun q -> { q with q_default_null_wrap = false });
+  "remap-name-collision-upload", (fun q -> { q with q_remap_collision = false });
 ]
 
 let rec subsets k l =
